@@ -3325,7 +3325,10 @@ impl BytecodeVM {
                             return self.execute_return(guarded.value, interp);
                         }
                         PendingCompletion::Throw(guarded) => {
-                            // Re-throw the exception after finally
+                            // Re-throw the exception after finally. The thrown value gets a guard of
+                            // its own: a completion that went through a suspension is only rooted by
+                            // its frame, which is released while the error unwinds.
+                            let guarded = Guarded::from_value(guarded.value, &interp.heap);
                             return Err(JsError::ThrownValue { guarded });
                         }
                         PendingCompletion::Break {
